@@ -57,7 +57,7 @@ def hunt(ctx, scs):
 def run(ctx, pool):
     failures = []
     # ---- leg A/C: hunt on the reference map
-    scs = rec_solver.mc_scenarios(ctx.sub_rng(3), ctx.n(400, 5000))
+    scs = rec_solver.mc_scenarios(ctx.sub_rng(3), ctx.n(1500, 30000))
     for sc in scs:
         sc["variant"] = "UNIQUAC_AsImplemented" if sc["model"] == "UNIQUAC" else "NRTL"
     stuck, other, r_hunt = hunt(ctx, scs)
